@@ -189,6 +189,7 @@ def run(ctx):
     through_cache(ctx, g, hashes)
     across_l0(ctx, g, hashes)
     dc_seeds_through_cache(ctx, g, hashes)
+    optimized_interpreter(ctx)
 
     # ---- thorough: the entire lattice against the spec chain (fast KDF), step counts against the model
     if ctx.thorough:
@@ -330,6 +331,55 @@ def dc_seeds_through_cache(ctx, g, hashes):
                         return
 
 
+
+def optimized_interpreter(ctx):
+    """the guards of the derivation are part of its behaviour in every interpreter mode: under `python -O` (assert statements compiled
+    away, common in production images) a request the seed does not cover, or an index outside 0..31, must still end in an error within the
+    KDF budget — never in a key, never in an endless walk"""
+    import subprocess, sys, json, os
+    here = os.path.dirname(os.path.dirname(os.path.abspath(__file__)))
+    code = r"""
+import sys, json
+sys.path.insert(0, %r)
+import gen
+import dpapi_ng._gkdi as g
+from cryptography.hazmat.primitives import hashes
+n = [0]
+class Budget(Exception): pass
+def kdf(algorithm, secret, label, context, length):
+    n[0] += 1
+    if n[0] > 200: raise Budget()
+    return b"\x00" * length
+g.kdf = kdf
+out = []
+for (a, b, r1, r2) in [(9, 12, 9, 13), (9, 12, 10, 0), (9, 12, 32, 0), (9, 12, 4, -1), (9, 12, -1, 5), (9, 12, 9, 32), (32, 0, 5, 5), (9, 12, 9, 12), (9, 12, 3, 3)]:
+    n[0] = 0
+    env = gen.make_env(l0=361, l1=a, l2=b, l1_key=b"\x11" * 64, l2_key=b"\x22" * 64)
+    try:
+        g.compute_l2_key(hashes.SHA512(), r1, r2, env)
+        out.append([a, b, r1, r2, "key"])
+    except Budget:
+        out.append([a, b, r1, r2, "loop"])
+    except Exception as e:
+        out.append([a, b, r1, r2, "err " + type(e).__name__])
+print(json.dumps(out))
+""" % (os.path.join(here, "harness") if not here.endswith("harness") else here)
+    for flag in ("-O", "-OO"):
+        try:
+            res = subprocess.run([sys.executable, flag, "-c", code], capture_output=True, text=True, timeout=300, env=dict(os.environ))
+            rows = json.loads(res.stdout.strip().splitlines()[-1])
+        except Exception as e:  # noqa
+            ctx.notes.append(f"optimized-interpreter run ({flag}) could not be evaluated: {type(e).__name__}")
+            continue
+        for (a, b, r1, r2, got) in rows:
+            covered = max(a, b, r1, r2) <= 31 and min(r1, r2) >= 0 and (r1, r2) <= (a, b)
+            ctx.count("optimized_interpreter:" + flag)
+            if covered != (got == "key"):
+                ctx.violation("under an optimising interpreter a request the seed does not cover (or an out-of-range index) yields a key or an endless walk",
+                              {"scenario": "optimized_interpreter", "flag": flag, "envelope": [a, b], "request": [r1, r2]}, got, "key" if covered else "an error")
+                return
+
+
 def lattice(ctx, g, hashes, sd, root, l0):
     calls = [0]
 
@@ -399,6 +449,12 @@ def replay(ctx, payload):
     if v.get("scenario") == "through_cache":
         c2 = type(ctx)(ctx.prop, "quick", ctx.seed)
         through_cache(c2, g, hashes)
+        for x in c2.violations:
+            print(" ", x["what"], x["input"], x["observed"])
+        return not c2.violations
+    if v.get("scenario") == "optimized_interpreter":
+        c2 = type(ctx)(ctx.prop, "quick", ctx.seed)
+        optimized_interpreter(c2)
         for x in c2.violations:
             print(" ", x["what"], x["input"], x["observed"])
         return not c2.violations
